@@ -88,6 +88,10 @@ type Prop struct {
 	// Selftest, when set, is run once by the parent before exploring: it
 	// returns the oracle-sensitivity results (mutated references killed).
 	Selftest func(tier string) (killed, total int, notes []string)
+	// RoundRobin deals the cases to the workers by enumeration index instead of by hash(spec): for properties with
+	// few, heavy, unique cases (schedule subtrees) the load is even; duplicate specs are then not guaranteed to meet
+	// in one worker, so the enumerator must not emit duplicates.
+	RoundRobin bool
 	// Workers overrides the worker count (0 = NumCPU).
 	Workers int
 	// Coverage, when set, adds/overrides evidence coverage keys computed from the merged hit counters
